@@ -128,7 +128,9 @@ def register(add, NOTE):
         "can give; exponent fields below 0.1 relative <= 5e-7; zero prints as zero; at exact powers of ten (float logarithm one too small) the text "
         "is exact. Structure theorems over the topology model: the geometry blocks list every pulse once in order; each pulse of an object is a "
         "numbered current row of its block or one of its junction pulses, never both. A character-level reader is proved to accept every "
-        "rendered text and to return exactly its value (and is run inside Coq on the real texts). PARTIAL: column agreement and per-table "
+        "rendered text and to return exactly its value (and is run inside Coq on the real texts). The ENVIRONMENT block is modelled line by line "
+        "(Model/Env.v, stage env against the real block for 0-4 media): every medium but the first prints its height, every medium but the last its "
+        "interface, in order. The printed near-field peak (formula extracted from the source) bounds the instantaneous field. PARTIAL: column agreement and per-table "
         "formats are checked by re-reading every number of real reports. Known finding: V/m table layout.",
         "Rocq proof (decimal rounding / truncation arithmetic over N and R) + character-wise vm_compute correspondence + report re-reading oracle",
         "DESIGN.md §6 C19", note=NOTE + PART)
